@@ -253,6 +253,9 @@ def check_large(case):
             for f, v in zip(feats[:n_cf], key):
                 mask &= f == v
             tot += int(mask.sum())
+            if mask.sum() == 0:  # a combination of control levels without rows: NaN, like an empty by_group cell
+                M.need(all(pd.isna(x) for x in row), f"overall[{key}] = {tuple(row)} for an empty control combination, expected NaN")
+                continue
             M.need(float(row[0]) == mask.sum() and M.close(row[1], float(w[mask & (yp == 1)].sum() / w[mask].sum())),
                    f"overall[{key}] = {tuple(row)} for the {int(mask.sum())} rows of that control combination")
         M.need(tot == n, f"control combinations of overall cover {tot} of {n} rows")
